@@ -8,6 +8,7 @@ pub mod c06;
 pub mod c07;
 pub mod c09b;
 pub mod c10;
+pub mod c10b;
 pub mod c11;
 pub mod c12;
 pub mod c13;
@@ -61,6 +62,7 @@ pub fn run(id: &str, tier: Tier) -> Option<Report> {
         "C10" => {
             let mut rep = Report::new("C10", "model_checking", tier);
             c10::run(tier, &mut rep);
+            c10b::run(tier, &mut rep);
             finalize_counts(&mut rep);
             rep
         }
@@ -105,6 +107,7 @@ pub fn replay(id: &str, v: &serde_json::Value) -> i32 {
         }
         "C09" if v["part"] == "binding" => c09b::replay(v),
         "C09" => table::replay_table(v, false, true),
+        "C10" if v["part"] == "binding" => c10b::replay(v),
         "C10" => c10::replay(v),
         "C11" => c11::replay(v),
         "C12" => c12::replay(v),
